@@ -134,6 +134,53 @@ Proof. exact listed_keys_signed. Qed.
 Print Assumptions C01_listed_keys_signed.
 
 
+(* ---- malformed credentials: crash or reject, never accept ------------------------------------- *)
+(* [o_vrf_crash O proof = true]: ProofToHash panics on this proof (a scalar that is 0 or >= the
+   group order).  The outcome type of the model has three kinds of values: Accept, the rejects,
+   and EPanic (the verifier crashes).  A header whose proposer credential is such a proof is never
+   accepted, by any variant; when all earlier checks pass the outcome is the crash. *)
+Theorem C01_malformed_credential_not_accepted :
+  forall O V cp vers seedH lb certH certlb h cd,
+    h_cons h = Some cd -> o_vrf_crash O (cd_proof cd) = true ->
+    verify_main O V cp vers seedH lb certH certlb h <> Accept.
+Proof. exact malformed_credential_not_accepted. Qed.
+Print Assumptions C01_malformed_credential_not_accepted.
+
+Theorem C01_malformed_credential_crashes :
+  forall O V cp vers seedH lb certH certlb h cd seedCon pk val,
+    h_cons seedH = Some seedCon -> h_cons h = Some cd -> need_seat V && (cd_sub cd =? 0) = false ->
+    cd_signer cd = Some pk -> find_by_main (lb_vals lb) pk = Some val ->
+    check_member V && negb (is_member val) = false -> lb_total lb <> 0 ->
+    o_vrf_crash O (cd_proof cd) = true ->
+    verify_main O V cp vers seedH lb certH certlb h = EPanic.
+Proof. exact malformed_credential_crashes. Qed.
+Print Assumptions C01_malformed_credential_crashes.
+
+(* a listed vote with such a proof that the loop reaches stops the verifier with the crash: the
+   vote list is not accepted; and no counted vote has such a proof *)
+Theorem C01_crashing_vote_not_accepted :
+  forall O V c step l1 v l2 st sig isPos,
+    cp_bls (c_cp c) = true ->
+    vote_loop O V c step vs0 l1 = inl st -> vote_step O V c step st v = inr EPanic ->
+    verify_votes O V c (l1 ++ v :: l2) (Some sig) step isPos = EPanic.
+Proof. exact crashing_vote_not_accepted. Qed.
+Print Assumptions C01_crashing_vote_not_accepted.
+
+Theorem C01_crashing_vote_step :
+  forall O V c step st v val bk mk,
+    recover_signer (c_lb c) v = Some (val, bk, mk) ->
+    check_member V && negb (is_member val) = false -> mem mk (st_sta st) = false ->
+    lb_total (c_lb c) <> 0 -> o_vrf_crash O (vt_proof v) = true ->
+    vote_step O V c step st v = inr EPanic.
+Proof. exact crashing_vote_step. Qed.
+Print Assumptions C01_crashing_vote_step.
+
+Theorem C01_counted_votes_do_not_crash :
+  forall O V c step votes x,
+    In x (counted_from O V c step [] votes) -> o_vrf_crash O (vt_proof (fst x)) = false.
+Proof. exact counted_votes_do_not_crash. Qed.
+Print Assumptions C01_counted_votes_do_not_crash.
+
 (* ---- the ordinary path: VerifyHeader / verifyHeader(parents) -------------------------------- *)
 (* [selection yts c parents h yp seedH lb certH certlb]: yp is the version recorded on the
    header VersionForRoundWithParents finds for h's round (canonical chain first, then the
@@ -301,3 +348,12 @@ Example C01_nonvacuous_same_hash_canonical :
   verify_header w_O fixed 2000 w_yts w_chain_known [] (mkXH (w_hdr w_cd_ok w_uv_house) 1000 true 0 false) true = HV EInvalidCD.
 Proof. exact w_same_hash_canonical. Qed.
 Print Assumptions C01_nonvacuous_same_hash_canonical.
+
+(* malformed proofs exist in the table world: as proposer credential and as a listed precommit
+   of an entitled voter they make the (current) verifier crash - never accept *)
+Example C01_nonvacuous_malformed :
+  verify_side w_O fixed w_cp [] w_seedH w_lb w_seedH w_lb (w_hdr w_cd_crash w_uv_ok) (Some w_parent) = EPanic /\
+  verify_side w_O fixed w_cp [] w_seedH w_lb w_seedH w_lb (w_hdr w_cd_ok w_uv_crash) (Some w_parent) = EPanic /\
+  o_vrf_crash w_O (cd_proof w_cd_crash) = true.
+Proof. exact w_malformed_crash. Qed.
+Print Assumptions C01_nonvacuous_malformed.
